@@ -716,7 +716,7 @@ func (cch *cache) RefreshContainers(containers []*nri.Container) ([]Container, [
 
 	for _, c := range containers {
 		valid[c.Id] = struct{}{}
-		if _, ok := cch.Containers[c.Id]; !ok {
+		if cached, ok := cch.Containers[c.Id]; !ok {
 			log.Debug("inserting discovered container %s...", c.Id)
 			inserted, err := cch.InsertContainer(c)
 			if err != nil {
@@ -725,6 +725,9 @@ func (cch *cache) RefreshContainers(containers []*nri.Container) ([]Container, [
 			} else {
 				add = append(add, inserted)
 			}
+		} else {
+			// The runtime knows the state better than a possibly stale cache.
+			cached.UpdateState(c.GetState())
 		}
 	}
 
